@@ -291,7 +291,13 @@ func (e *Engine) check(st *State, extra *smt.Term, wantModel bool) (smt.Result, 
 			vars = []*smt.Term{}
 		}
 	}
-	r, m := e.S.CheckPC(st.PC, extra, vars)
+	var r smt.Result
+	var m map[string]uint64
+	if !Inc {
+		r, m = e.S.Check(dedupe(append(append([]*smt.Term(nil), st.PC...), extra)), vars)
+	} else {
+		r, m = e.S.CheckPC(st.PC, extra, vars)
+	}
 	if r == smt.Sat && vars == nil {
 		m = nil
 	}
@@ -892,6 +898,9 @@ func (e *Engine) simpRec(st *State, t *smt.Term, depth int) *smt.Term {
 	st.simpMemo[t.ID] = r
 	return r
 }
+
+// Inc: keep the path condition on the solver stack between queries.
+var Inc = os.Getenv("VF_INC") != ""
 
 type feasSorter struct {
 	f []int
